@@ -177,6 +177,20 @@ def _do_op(h, op):
         raw = h.raws[op['node']]
         w.log('rawtx', op['node'], str(op['dst']), str(op.get('src')), op['octets'])
         raw.send(bytes.fromhex(op['octets']), op['dst'], op.get('src'))
+    elif kind == 'unconf':
+        # the client application sends an UNCONFIRMED request straight to a peer (nobody owes anybody anything for it)
+        c = h.stacks.get(op['c'])
+        if c is not None and not c.node.dead:
+            from bacpypes.apdu import UnconfirmedPrivateTransferRequest
+            scfg = h.cfgs.get(op['s']) or next(x for x in h.desc['stacks'] if x['name'] == op['s'])
+            u = UnconfirmedPrivateTransferRequest(vendorID=999, serviceNumber=op.get('n', 1))
+            u.pduDestination = Address(scfg['addr'])
+            w.log('unconf', op['c'], op['s'])
+            w.probe('unconf_sent')
+            try:
+                c.app.request(u)
+            except Exception as e:
+                w.log('unconf_exc', op['c'], type(e).__name__)
     elif kind == 'iam':
         # a real stack announces itself (again)
         st = h.stacks.get(op['node'])
